@@ -85,11 +85,46 @@ func genArg(r *hx.Rand) argT {
 	}
 }
 
+// fitArgs returns operands of a kind the verb accepts.
+func fitArgs(r *hx.Rand, verb string) []argT {
+	str := argT{K: "s", S: hex.EncodeToString([]byte(hx.Pick(r, fmtStrings)))}
+	num := argT{K: "i", I: int64(r.Range(-1000, 100000))}
+	flt := argT{K: "f", F: float64(r.Range(-1000, 1000)) / 8}
+	if len(verb) < 2 || strings.Contains(verb, "[") {
+		return []argT{genArg(r)}
+	}
+	var out []argT
+	if strings.Contains(verb, "*") {
+		out = append(out, argT{K: "i", I: int64(r.Range(0, 9))})
+	}
+	switch verb[len(verb)-1] {
+	case 's', 'q':
+		out = append(out, str)
+	case 'd', 'b', 'o', 'c', 'U', 'x', 'X':
+		out = append(out, num)
+	case 'f', 'e', 'g':
+		out = append(out, flt)
+	case 't':
+		out = append(out, argT{K: "b", I: int64(r.Intn(2))})
+	case 'v', 'T':
+		out = append(out, genArg(r))
+	default: // "%", "%!", "%z", "%S": not verbs that consume sensibly
+		if r.Chance(1, 2) {
+			out = append(out, genArg(r))
+		}
+	}
+	return out
+}
+
 func genFmt(r *hx.Rand) *fmtCase {
 	k := &fmtCase{Code: hx.Pick(r, []int{200, 200, 201, 404, 500, 418})}
 	var b strings.Builder
 	switch r.Intn(10) {
-	case 0, 1, 2: // the neighbourhood of the fast path: one string argument, a "%s" somewhere
+	case 0: // exactly the fast path: literal, %s, literal
+		plain := []string{"", "a", "100", "hello ", " world", "x=", "\n", "{}", "s", "é"}
+		b.WriteString(hx.Pick(r, plain) + "%s" + hx.Pick(r, plain))
+		k.Args = []argT{{K: "s", S: hex.EncodeToString([]byte(hx.Pick(r, fmtStrings)))}}
+	case 1, 2: // the neighbourhood of the fast path: one string argument, a "%s" somewhere
 		pieces := []string{"%s", "%%", "%", "%d", "%5s", "a", "100", "%%s", "%s%", "s", "% s", "%[1]s", " ", "%v"}
 		n := r.Range(1, 4)
 		hasS := false
@@ -115,25 +150,24 @@ func genFmt(r *hx.Rand) *fmtCase {
 		}
 	default:
 		n := r.Range(0, 5)
+		matched := r.Chance(2, 3) // operands chosen to fit the verbs (no %!verb(type=…) markers)
+		var fit []argT
 		for i := 0; i < n; i++ {
 			if r.Chance(1, 2) {
 				b.WriteString(hx.Pick(r, fmtLits))
 			}
-			b.WriteString(hx.Pick(r, fmtVerbs))
+			v := hx.Pick(r, fmtVerbs)
+			b.WriteString(v)
+			fit = append(fit, fitArgs(r, v)...)
 		}
 		if r.Chance(1, 2) {
 			b.WriteString(hx.Pick(r, fmtLits))
 		}
-		na := r.Range(0, 4)
-		if r.Chance(1, 2) {
-			na = strings.Count(b.String(), "%") - 2*strings.Count(b.String(), "%%")
-			if na < 0 {
-				na = 0
-			}
-			if na > 5 {
-				na = 5
-			}
+		if matched {
+			k.Args = fit
+			break
 		}
+		na := r.Range(0, 4)
 		for i := 0; i < na; i++ {
 			k.Args = append(k.Args, genArg(r))
 		}
